@@ -19,16 +19,22 @@ B = tys.Bool
 @lemma("C08", params=lambda: [(m,) for m in deletion_masks(4)],
        unbounded="port offsets of B's value links",
        bounds="B: 4 nodes in a 3-level hierarchy with any deletable set removed (holes) and optional index reuse, metadata on odd nodes or none, "
-              "<= 2 optional links (value links with symbolic offsets, order links, multi-links); A: root + 2 nodes with one optional link; "
+              "one symbolic link plus an optional duplicate of it (quick) / <= 3 optional links (thorough): value links with symbolic offsets, order links, multi-links; A: root + 2 nodes with one optional link; "
               "insertion parent symbolic among A's nodes; one task per deletion set",
        outside="larger B / A", opts={"max_paths": 400000, "timeout_s": 3000})
 def insert_hugr_is_isomorphic_embedding(dels):
     b, live = holey_hugr(4, tag="b.", dels=dels)
-    blinks = live_links(2, live, tag="bl", max_off=None)
+    if P(True, False):
+        blinks = live_links(1, live, tag="bl", max_off=None)
+        if blinks:  # a second link duplicating the first (multi-link on both ports), optional
+            l0 = blinks[0]
+            blinks.append(store.Link(sym.bool("bl.dup"), l0.a, l0.o, l0.b, l0.q))
+    else:
+        blinks = live_links(3, live, tag="bl", max_off=None)
     store.attach_links(b, blinks, {i: 2 for i in live if i != 0})
-    alinks = store.sym_links(1, 3, tag="al")
+    alinks = [store.Link(True, 1, 0, 2, 1)] if P(True, False) else store.sym_links(1, 3, tag="al")
     a, anodes = store.make_store(3, alinks)
-    par = anodes[sym.concretize(sym.int("parent", 0, 2))]
+    par = anodes[sym.concretize(sym.int("parent", 0, P(1, 2)))]
     a_before = [(n.idx, a[n].op, a[n].parent, [c.idx for c in a.children(n)]) for n in a]
     b_nodes_before = [(n.idx, b[n].op, b[n].parent, [c.idx for c in b.children(n)], dict(b[n].metadata)) for n in b]
     mapping = a.insert_hugr(b, par)
@@ -53,16 +59,19 @@ def insert_hugr_is_isomorphic_embedding(dels):
             okc = sym.and_(okc, a.num_out_ports(mu[i]) == b.num_out_ports(Node(i)))
     sym.check("output_port_counts_preserved", okc)
     sym.check("root_hangs_under_requested_parent_as_last_child", a.children(par)[-1] == mu[0])
-    # links: ordered per-port lists at symbolic ports of the image, both ends
+    # links: ordered per-port lists of the image, both ends (quick: at the ports of B's first link; thorough: at any port)
     cands = [i for i in live if i != 0]
-    for v in cands[:1]:
-        v = cands[sym.concretize(sym.int("qv", 0, len(cands) - 1))]
-        o = sym.int("qo", -1, None)
-        got = list(a.linked_ports(OutPort(mu[v], o)))
-        want = [(mu[sym.concretize(t)].idx, q) for (t, q) in store.targets(blinks, v, o)]
+    if cands:
+        if P(True, False) and blinks:
+            sv, so, tv, to = blinks[0].a, blinks[0].o, blinks[0].b, blinks[0].q
+        else:
+            sv = tv = cands[sym.concretize(sym.int("qv", 0, len(cands) - 1))]
+            so = to = sym.int("qo", -1, None)
+        got = list(a.linked_ports(OutPort(mu[sv], so)))
+        want = [(mu[sym.concretize(t)].idx, q) for (t, q) in store.targets(blinks, sv, so)]
         sym.check("links_of_image_from_source_end", store.same_ports(got, want))
-        got = list(a.linked_ports(InPort(mu[v], o)))
-        want = [(mu[sym.concretize(t)].idx, q) for (t, q) in store.sources(blinks, v, o)]
+        got = list(a.linked_ports(InPort(mu[tv], to)))
+        want = [(mu[sym.concretize(t)].idx, q) for (t, q) in store.sources(blinks, tv, to)]
         sym.check("links_of_image_from_target_end", store.same_ports(got, want))
     # A's prior nodes and links unchanged
     oka = True
@@ -71,16 +80,20 @@ def insert_hugr_is_isomorphic_embedding(dels):
         exp_kids = kids + ([mu[0].idx] if idx == par.idx else [])
         oka = oka and a[n].op is op and a[n].parent == parent and [c.idx for c in a.children(n)] == exp_kids
     sym.check("prior_nodes_of_A_unchanged", oka)
-    x, xo = sym.int("ax", 1, 2), sym.int("axo", -1, None)
-    sym.check("prior_links_of_A_unchanged", sym.and_(
-        store.same_ports(list(a.linked_ports(OutPort(Node(x), xo))), store.targets(alinks, x, xo)),
-        store.same_ports(list(a.linked_ports(InPort(Node(x), xo))), store.sources(alinks, x, xo))))
+    if P(True, False):
+        sym.check("prior_links_of_A_unchanged", list(a.linked_ports(OutPort(Node(1), 0))) == [InPort(Node(2), 1)]
+                  and list(a.linked_ports(InPort(Node(2), 1))) == [OutPort(Node(1), 0)] and list(a.linked_ports(InPort(Node(1), 0))) == [])
+    else:
+        x, xo = sym.int("ax", 1, 2), sym.int("axo", -1, None)
+        sym.check("prior_links_of_A_unchanged", sym.and_(
+            store.same_ports(list(a.linked_ports(OutPort(Node(x), xo))), store.targets(alinks, x, xo)),
+            store.same_ports(list(a.linked_ports(InPort(Node(x), xo))), store.sources(alinks, x, xo))))
     # B itself is not modified
     sym.check("B_nodes_unchanged", [(n.idx, b[n].op, b[n].parent, [c.idx for c in b.children(n)], dict(b[n].metadata)) for n in b] == b_nodes_before)
     if cands:
         sym.check("B_links_unchanged", sym.and_(
-            store.same_ports(list(b.linked_ports(OutPort(Node(v), o))), store.targets(blinks, v, o)),
-            store.same_ports(list(b.linked_ports(InPort(Node(v), o))), store.sources(blinks, v, o))))
+            store.same_ports(list(b.linked_ports(OutPort(Node(sv), so))), store.targets(blinks, sv, so)),
+            store.same_ports(list(b.linked_ports(InPort(Node(tv), to))), store.sources(blinks, tv, to))))
 
 
 def _inner(kind, n_in):
@@ -161,7 +174,7 @@ def parent_before_child():
     a = Hugr()
     try:
         m = a.insert_hugr(b)
-        ok = a[m[z]].parent == m[y] and a[m[y]].parent == a.root and len(a) == 4
+        ok = a[m[z]].parent == m[y] and a[m[y]].parent == m[b.root] and a[m[b.root]].parent == a.root and len(a) == 4
         sym.check("child_listed_before_parent_is_refused_or_embedded_correctly", ok)
     except ParentBeforeChild:
         # refusal is acceptable (the statement does not promise atomicity); A's own nodes must be intact
